@@ -123,7 +123,7 @@ def column_layer_ops(mg, g, rng, subset_cap):
     """every column/layer editing operation applicable to g, with every column subset as argument
     (subset enumeration capped at `subset_cap` subsets per operation: all when 2^n - 1 <= cap, else all
     singletons, all adjacent pairs, all, and a seeded sample)"""
-    cols = list(g.columnlist)
+    cols = sorted(g.columnlist, key=G.ckey)
     locs = [G.col_loc(c) for c in cols]
     n = len(cols)
     if 2 ** n - 1 <= subset_cap:
@@ -153,7 +153,7 @@ def column_layer_ops(mg, g, rng, subset_cap):
             ops.append(['decompose_columns', {'cols': sl}])
     # refine with bisected edge columns: region = one column, edge = a subset of its neighbours
     for i, c in enumerate(cols):
-        nb = [G.col_loc(k) for k in sorted(c.neighbour, key=lambda k: k.name)]
+        nb = [G.col_loc(k) for k in sorted(c.neighbour, key=G.ckey)]
         for e in subsets(nb)[:7]:
             for bisect in (False, True):
                 ops.append(['refine', {'cols': [locs[i]], 'bisect': bisect, 'edge': e}])
@@ -182,13 +182,26 @@ def column_layer_ops(mg, g, rng, subset_cap):
         ops.append(['add_layer', {'name': fresh_name(g, 'layer', rng, g.layername_length),
                                   'bottom': H(low - 4), 'centre': H(low - 2), 'top': H(low)}])
     ops.append(['copy_layers_from', {'dz': [H(1.), H(3.), H(2.)], 'top': H(g.layerlist[0].bottom if g.layerlist else 0.)}])
+    ops.append(['rotate', {'angle': H(90.)}])
+    ops.append(['rotate', {'angle': H(30.), 'centre': [H(1.), H(-2.)]}])
+    ops.append(['translate', {'shift': [H(3.5), H(-2.25), H(1.5)]}])
     return ops
 
 
-def random_op(mg, g, rng):
-    """one applicable operation, any kind (random long sequences)"""
-    cols = list(g.columnlist)
+def random_op(mg, g, rng, inv):
+    """one applicable operation, any kind (random long sequences).  `inv` = GeoInv of the current state:
+    from a state outside the invariant (a bare edit left something stale) the generator mostly picks one of
+    the repairing operations, and it never refines / decomposes / splits an invalid mesh."""
+    cols = sorted(g.columnlist, key=G.ckey)
+    if not G.consistent(inv) and rng.random() < 0.8:
+        return [rng.choice(['roundtrip', 'setup_names', 'setup_names', 'identify_neighbours']
+                           + (['refine_layers'] if inv['num_layers'] and len(g.layerlist) > 1 else []))]
+    if not G.mesh_valid(inv) and rng.random() < 0.6:
+        return ['check_fix']
+    healthy = G.consistent(inv) and G.mesh_valid(inv)
     r = rng.random()
+    if not healthy and r < 0.26:
+        r = 0.26 + rng.random() * 0.74
     used = {id(n) for c in cols for n in c.node}
 
     def some_cols(kmax=None):
@@ -201,7 +214,7 @@ def random_op(mg, g, rng):
             frontier = [c0]
             while frontier and len(patch) < k:
                 c = frontier.pop(rng.randrange(len(frontier)))
-                for nb in sorted(c.neighbour, key=lambda q: q.name):
+                for nb in sorted(c.neighbour, key=G.ckey):
                     if id(nb) not in seen and any(nb is x for x in cols) and len(patch) < k:
                         seen.add(id(nb)); patch.append(nb); frontier.append(nb)
             return patch
@@ -221,7 +234,7 @@ def random_op(mg, g, rng):
         a = {'cols': L(sel), 'bisect': rng.choice([False, False, True, 'x', 'y'])}
         if rng.random() < 0.3:
             selids = {id(c) for c in sel}
-            nb = [k for c in sel for k in c.neighbour if id(k) not in selids]
+            nb = sorted({id(k): k for c in sel for k in c.neighbour if id(k) not in selids}.values(), key=G.ckey)
             if nb:
                 e = rng.sample(nb, min(len(nb), rng.randint(1, 3)))
                 a['edge'] = L(list({id(c): c for c in e}.values()))
@@ -263,25 +276,27 @@ def random_op(mg, g, rng):
                               'wells': rng.random() < 0.5}]
     if r < 0.60:
         return ['rotate', {'angle': H(rng.choice([90., -90., 180., 30., 37.6, 360., 45.])),
-                           'centre': None if rng.random() < 0.5 else [H(rng.randint(-8, 8) * 1.), H(rng.randint(-8, 8) * 1.)],
+                           # (the default centre is a float sum over columnlist, whose order after a refine depends on
+                           #  set iteration order: the last bits of every position would differ from run to run)
+                           'centre': [H(rng.randint(-8, 8) * 1.), H(rng.randint(-8, 8) * 1.)],
                            'wells': rng.random() < 0.5}]
     if r < 0.64 and len(cols) > 1:
         return ['delete_column', {'col': G.col_loc(rng.choice(cols))}]
     if r < 0.68 and g.connectionlist:
-        con = rng.choice(g.connectionlist)
-        return ['delete_connection', {'cols': L(con.column)}]
+        con = rng.choice(sorted(g.connectionlist, key=lambda k: sorted([G.ckey(k.column[0]), G.ckey(k.column[1])])))
+        return ['delete_connection', {'cols': L(sorted(con.column, key=G.ckey))}]
     if r < 0.73:
         # add a connection between two columns that share a side and have none
         inv = G.geoinv(g)
-        miss = [k for k in inv['missing-connections']]
+        byid = {id(c): c for c in cols}
+        miss = sorted(inv['missing-connections'], key=lambda k: sorted([G.ckey(byid[k[1]]), G.ckey(byid[k[2]])]))
         if miss:
-            byid = {id(c): c for c in cols}
             k = rng.choice(miss)
-            pair = [byid[k[1]], byid[k[2]]]
+            pair = sorted([byid[k[1]], byid[k[2]]], key=G.ckey)
             rng.shuffle(pair)
             return ['add_connection', {'cols': L(pair)}]
     if r < 0.77:
-        orphans = [n for n in g.nodelist if id(n) not in used]
+        orphans = sorted([n for n in g.nodelist if id(n) not in used], key=G.nkey)
         if orphans and rng.random() < 0.6:
             return ['delete_node', {'node': G.node_loc(rng.choice(orphans))}]
         b = g.bounds
@@ -289,17 +304,18 @@ def random_op(mg, g, rng):
                              'pos': [H(b[1][0] + rng.randint(1, 8)), H(b[0][1] + rng.randint(0, 8))]}]
     if r < 0.81:
         # a new triangle on a boundary side, using an orphan node if there is one lying outside
-        orphans = [n for n in g.nodelist if id(n) not in used]
+        orphans = sorted([n for n in g.nodelist if id(n) not in used], key=G.nkey)
         if orphans:
             nd = rng.choice(orphans)
-            c = rng.choice(cols)
-            k = rng.randrange(c.num_nodes)
-            nodes = [c.node[(k + 1) % c.num_nodes], c.node[k], nd]
-            p = [(G.fx(n.pos[0]), G.fx(n.pos[1])) for n in nodes]
-            if G.shoelace2(p) != 0:
-                return ['add_column', {'name': fresh_name(g, 'column', rng, g.colname_length),
-                                       'nodes': [G.node_loc(n) for n in nodes],
-                                       'surface': H(c.surface) if c.surface is not None else None}]
+            sides = G.boundary_sides(g)
+            rng.shuffle(sides)
+            for c, k in sides[:12]:
+                nodes = [c.node[(k + 1) % c.num_nodes], c.node[k], nd]
+                p = [(G.fx(n.pos[0]), G.fx(n.pos[1])) for n in nodes]
+                if G.shoelace2(p) > 0 and not G.overlaps_mesh(g, p):
+                    return ['add_column', {'name': fresh_name(g, 'column', rng, g.colname_length),
+                                           'nodes': [G.node_loc(n) for n in nodes],
+                                           'surface': H(c.surface) if c.surface is not None else None}]
     if r < 0.84 and len(g.layerlist) > 2:
         return ['delete_layer', {'name': g.layerlist[-1].name if rng.random() < 0.6 else rng.choice(g.layerlist[1:]).name}]
     if r < 0.87 and g.layerlist:
@@ -415,22 +431,27 @@ def random_sequences(ctx, mg, res, deadline):
             g = G.build(mg, recipe)
             if len(g.columnlist) > 300:
                 continue
-            ops = []
+            ops, v = [], []
             prev = G.geoinv(g)
-            viols = []
             length = rng.randint(3, 25)
             for step in range(length):
                 if len(g.columnlist) > 300:
                     break
-                op = random_op(mg, g, rng)
+                op = random_op(mg, g, rng, prev)
                 ops.append(op)
-                g, exc = G.apply_op(mg, g, op, ctx.tmp)
+                info = {}
+                g, exc = G.apply_op(mg, g, op, ctx.tmp, info)
+                cur = G.geoinv(g)
+                vs = G.judge(op[0], exc, prev, cur, info.get('suffix', ''))
+                for x in vs:
+                    x['step'] = step
+                v += vs
+                prev = cur
                 res.count('op:' + opsig(op))
                 if exc is not None:
                     res.count('exc:%s@%s' % (exc, op[0]))
+                if exc is not None or any(x['key'] not in KNOWN() for x in vs):
                     break
-            # evaluate the whole recorded sequence with the oracle (replayable form)
-            v, t, _ = G.run_sequence(mg, recipe, ops, ctx.tmp, KNOWN())
             res.evaluations += 1
             res.count('random-len', len(ops))
             res.count('start:' + label.rstrip('0123456789x'))
